@@ -15,6 +15,7 @@
 -/
 import Demeter.Actuator.Causal
 import Proofs.Lemmas.CoreCausal
+import Proofs.Lemmas.CoreActuator5
 namespace Demeter
 open Core
 
@@ -203,6 +204,28 @@ theorem C02_actuator_prefix (c₁ c₂ : Cfg) (sc : Script) (pre suf₁ suf₂ :
   refine ⟨_, _, ?_, ?_, rfl, rfl⟩
   · rw [runBars_append c₁ sc pre suf₁ row st hok]
   · rw [runBars_append c₂ sc pre suf₂ row st hok₂, ← e]
+
+/-- **C02 — the triggers' state is causal too.**  After the bars `pre` (of a run that got through them) the installed trigger objects — with
+    their private state: `PeriodTrigger._next_match`, `PeriodsTrigger._next_matches`, who has been retired — are exactly what the pure trigger
+    fold `trigRun` leaves over the timestamps of `pre`: a function of the bars visited so far and the triggers as installed, and of nothing
+    else — not of the market data, the prices, what the hooks do (from `notify` included), nor of any later bar. -/
+theorem C02_trigger_state_after_k_bars (cfg : Cfg) (sc : Script) (pre : List Int) (row : Nat) (st : St)
+    (hok : (runBars cfg sc row pre st).2.2 = none) :
+    (runBars cfg sc row pre st).2.1.trigs = (trigRun pre st.trigs).2.1 ∧
+    (runBars cfg sc row pre st).1.filterMap fireOfEv = (trigRun pre st.trigs).1 :=
+  ⟨(runBars_trig cfg sc pre row st hok).2.1, (runBars_trig cfg sc pre row st hok).1⟩
+
+/-- … hence two runs over different data, different scripts and different futures that share the bar prefix `pre` hold identical trigger
+    objects after it and have called the same trigger actions on the same bars -/
+theorem C02_trigger_state_prefix (c₁ c₂ : Cfg) (sc₁ sc₂ : Script) (pre : List Int) (row₁ row₂ : Nat) (st₁ st₂ : St)
+    (htr : st₁.trigs = st₂.trigs)
+    (h₁ : (runBars c₁ sc₁ row₁ pre st₁).2.2 = none) (h₂ : (runBars c₂ sc₂ row₂ pre st₂).2.2 = none) :
+    (runBars c₁ sc₁ row₁ pre st₁).2.1.trigs = (runBars c₂ sc₂ row₂ pre st₂).2.1.trigs ∧
+    (runBars c₁ sc₁ row₁ pre st₁).1.filterMap fireOfEv = (runBars c₂ sc₂ row₂ pre st₂).1.filterMap fireOfEv := by
+  obtain ⟨a1, a2⟩ := C02_trigger_state_after_k_bars c₁ sc₁ pre row₁ st₁ h₁
+  obtain ⟨b1, b2⟩ := C02_trigger_state_after_k_bars c₂ sc₂ pre row₂ st₂ h₂
+  rw [a1, a2, b1, b2, htr]
+  exact ⟨rfl, rfl⟩
 
 /-- a frame supplies the same data for a bar whenever its index and its rows up to the end of the bar's bin are the same:
     `is_open` and the row read at `ts` (first row of `[ts, ts + Δ)` after resampling, the row stamped `ts` otherwise) depend on
